@@ -1073,6 +1073,121 @@ def opGenResolve (j : Json) : R Json := do
 
 end GenXL
 
+/-! #### `genexec2` / serialisers (tag `serial`): the documents of the generated `graph__to_dict` and the generated
+`graph__from_dict` on REAL documents (notes/NOTES_genexec2_serial.md).  Ordered rendering of Python values (Lean's `Json`
+objects sort their keys): a dictionary is `["d", [[key, value], …]]` (keys: JSON numbers for `int`, strings for `str`), a
+list `["l", […]]`, a `ttc` dictionary `["t", [[key, text], …]]` (the `PyDictS` convention: the value under `name` is the
+string itself, every other value its compressed JSON text), a non-empty `extras` dictionary `["j", canonical JSON text]`. -/
+namespace GenXS
+open MalVerif.Py
+open MalVerif.Ser (Key)
+
+def jKey : Key → Json | .i n => jI n | .s t => jS t
+def jD (kvs : List (Json × Json)) : Json :=
+  Json.arr #[jS "d", Json.arr (kvs.map (fun (e : Json × Json) => Json.arr #[e.1, e.2])).toArray]
+
+def atomToJson : PyAtom → Json
+  | .none => Json.null
+  | .int i => jI i
+  | .str t => jS t
+  | .strs l => Json.arr #[jS "l", jsonOfList jS l]
+  | .idmap d => jD (d.map (fun e => (jKey e.1, jS e.2)))
+  | .dictS d => Json.arr #[jS "t", jsonOfList (fun (e : String × String) => Json.arr #[jS e.1, jS e.2]) d]
+  | .json t => Json.arr #[jS "j", jS t]
+
+def dictAToJson (d : PyDictA) : Json := jD (d.map (fun e => (jS e.1, atomToJson e.2)))
+def docToJson (d : PyDoc) : Json := jD (d.map (fun top => (jS top.1, jD (top.2.map (fun e => (jS e.1, dictAToJson e.2))))))
+
+/-- what the generated `AttackGraph._to_dict` returns for the graph of the heap (or the class of the exception) -/
+def toDictJson (s : H) : Json :=
+  match Gen.graph__to_dict (s.attackers.length + 2) s with
+  | .ok d => docToJson d
+  | .error e => jO [("error", jS (GenX.pyErrName e))]
+
+/-- `gen_ag_todict {ops, pos}`: the history of `gen_ag_hist` replayed with the same glue (`GenX.agStepGen`, `saveLoadGen`,
+`deepcopyGen`); BEFORE every step whose index is listed in `pos` (and after the last step when `pos` lists `len(ops)`): the
+document of the generated `_to_dict` for the current graph and for the other side of a deep copy -/
+def opGenAgTodict (j : Json) : R Json := do
+  let ops ← jfield jarr j "ops"
+  let pos ← jfield (jlist jnat) j "pos"
+  let mut s : H := {}
+  let mut other : Option PyGraph := none
+  let mut outs : Array Json := #[]
+  let snap (p : Nat) (s : H) (other : Option PyGraph) : Json :=
+    jO [("pos", jN p), ("doc", toDictJson s),
+        ("other", match other with | some t => toDictJson (s.withGraph t) | none => Json.null)]
+  let mut i := 0
+  for o in ops do
+    if pos.contains i then outs := outs.push (snap i s other)
+    let k ← jfield jstr o "k"
+    if k == "save_load" then
+      match GenX.saveLoadGen s (← jfield jstr o "fmt") (← jfield jbool o "withModel") with
+      | .ok s' => s := s'; other := none
+      | .error _ => pure ()
+    else if k == "deepcopy" then
+      match GenX.deepcopyGen s with
+      | .ok (s', og) => s := s'; other := some og
+      | .error _ => pure ()
+    else if k == "switch" then
+      match other with
+      | some t =>
+        let cur := GenX.graphOf s
+        s := s.withGraph t
+        other := some cur
+      | none => throw "switch without deepcopy"
+    else
+      let (s', _, _) ← GenX.agStepGen s o
+      s := s'
+    s := GenX.normH s
+    i := i + 1
+  if pos.contains i then outs := outs.push (snap i s other)
+  pure (Json.arr outs)
+
+def parsePairs {α β} (fk : Json → R α) (fv : Json → R β) (j : Json) : R (List (α × β)) :=
+  jlist (fun e => do
+    match (← jarr e) with
+    | [k, v] => pure ((← fk k), (← fv v))
+    | _ => throw "bad pair") j
+
+def parseKey (j : Json) : R Key :=
+  match j with
+  | .str t => pure (.s t)
+  | _ => do pure (.i (← jint j))
+
+/-- a value of a node / attacker dictionary of a REAL document (ordered rendering above); Python values that `PyAtom`
+cannot express (floats, booleans, nested lists …) are refused -/
+def parseAtom (j : Json) : R PyAtom :=
+  match j with
+  | .null => pure .none
+  | .str t => pure (.str t)
+  | .num _ => do pure (.int (← jint j))
+  | .arr #[.str "l", l] => do pure (.strs (← jlist jstr l))
+  | .arr #[.str "d", d] => do pure (.idmap (← parsePairs parseKey jstr d))
+  | .arr #[.str "t", d] => do pure (.dictS (← parsePairs jstr jstr d))
+  | .arr #[.str "j", .str t] => pure (.json t)
+  | _ => throw s!"value not representable as PyAtom: {j.compress}"
+
+def parseD {α} (f : Json → R α) (j : Json) : R (List (String × α)) :=
+  match j with
+  | .arr #[.str "d", d] => parsePairs jstr f d
+  | _ => throw "dictionary expected"
+
+def parseDoc (j : Json) : R PyDoc := parseD (parseD (parseD parseAtom)) j
+
+/-- `gen_ag_fromdict {doc, withModel}`: the generated `AttackGraph._from_dict` on a document as the REAL file layer
+returned it; the loaded heap is observed like a step of `gen_ag_hist`, and saved again with the generated `_to_dict` -/
+def opGenAgFromdict (j : Json) : R Json := do
+  let d ← parseDoc (← jget j "doc")
+  let model : Option PyModel :=
+    if (← jfield jbool j "withModel") then some { get_asset_by_name := fun nm => some (GenX.assetOfName nm) } else none
+  match Gen.graph__from_dict {} d model with
+  | .error e => pure (jO [("err", jS (GenX.pyErrName e))])
+  | .ok (s', aux) =>
+    let s := GenX.normH { s' with nfresh := aux.nfresh, afresh := aux.afresh }
+    pure (jO [("err", Json.null), ("obs", GenX.obsH s), ("resaved", toDictJson s)])
+
+end GenXS
+
 def dispatch (j : Json) : R Json := do
   let op ← jfield jstr j "op"
   match op with
@@ -1097,6 +1212,8 @@ def dispatch (j : Json) : R Json := do
   | "gen_apriori" => GenX.opGenApriori j
   | "gen_model_hist" => GenXM.opGenModelHist j
   | "gen_resolve" => GenXL.opGenResolve j
+  | "gen_ag_todict" => GenXS.opGenAgTodict j
+  | "gen_ag_fromdict" => GenXS.opGenAgFromdict j
   | _ => throw "bad-op"
 
 def handle (line : String) : String :=
